@@ -641,7 +641,7 @@ func GenExec(t *rapid.T, f Features) *ExecCase {
 		g.class("module-const")
 	}
 	// privates
-	for i, n := 0, g.intn(3, "npriv"); i < n; i++ {
+	for i, n := 0, g.privCount(); i < n; i++ {
 		pt := g.valueType(1)
 		pv := &Var{Name: g.name("pv"), Kind: VPrivate, T: pt}
 		if (g.chance(50, "privinit") || f.off("var.no-init")) && !(pt.ContainsStruct() && f.off("private.init.struct")) {
@@ -783,4 +783,13 @@ func (g *gen) derefOff(e Expr) bool {
 		return g.f.off("ptr.deref.compound")
 	}
 	return false
+}
+
+// privCount draws the number of private variables (none when the construct is off).
+func (g *gen) privCount() int {
+	n := g.intn(3, "npriv")
+	if g.f.off("private-var") {
+		return 0
+	}
+	return n
 }
